@@ -396,6 +396,9 @@ def coerce(v: V, ty: Ty) -> V:
         return opt_val(v)
     if isinstance(ty, TRef) and isinstance(v.ty, TRef):
         return V(ty, v.t)
+    if isinstance(ty, TList) and isinstance(v.ty, TList) and ty.elem == TInt and isinstance(v.ty.elem, TEnum):
+        # list of IntEnum/Enum members where a list of ints is declared: same length, same (Int-encoded) elements
+        return list_mk(TInt, list_len(v), list_arr(v))
     if ty == TFunc and v.ty == TFunc:
         return v
     raise Unsupported("cannot coerce %s to %s" % (v.ty, ty))
